@@ -95,6 +95,19 @@ META["C05"] = {
     "level_note": "trusts the recording handlers (machine views read from inside the handler) and the recording tracer",
 }
 
+META["C07"] = {
+    "budget": {"quick": 25, "thorough": 600},
+    "rule": "one run = generated schema with many Auto states (chained by Require, mutually Removing, with Add) plus a Healthcheck state + veto plan (any handler in ordinary transitions; only the called Auto states' own Enter/self/state-state handlers inside auto mutations) + a single-caller history incl. health-check, no-op and handler-issued mutations; the tracer stream is checked transition by transition; non-trivial = at least one auto mutation ran; distinct = distinct plans",
+    "components": {"real": MACHINE_REAL, "stub": []},
+    "assumptions": [
+        "single-caller histories (no concurrent Can*/Eval prepends), so 'the very next transition' is well defined",
+        "an auto mutation canceled by a handler that is not one of the called Auto states' own is outside the clause (ordinary veto semantics)",
+    ],
+    "probes": ["auto-state-rejected-by-own-handler", "health-mutation-changed-time", "no-op-mutation"],
+    "level_text": "seeded search over schemas, histories and veto assignments; checks that the very next transition after an accepted, state-changing, non-health mutation is the auto mutation calling exactly the inactive unblocked Auto states, that none follows otherwise, and that inside it every called state is judged alone",
+    "level_note": "trusts the recording tracer and handlers",
+}
+
 NOT_YET = "check not built yet in this session (planned, see DESIGN.md section 5)"
 NOT_APPLICABLE = {
     "C19": "no schedule, clock, fault or multi-party behaviour: a static well-formedness scan of schema literals plus an exhaustive breadth-first enumeration of reachable active sets, i.e. bounded model checking, not deterministic simulation (DESIGN.md section 6)",
